@@ -2,8 +2,7 @@
 """Writes MANIFEST.json from the table below (kept next to the code so it cannot drift)."""
 import json, os
 VERIF = os.path.dirname(os.path.dirname(os.path.abspath(__file__)))
-BASELINE = ("cd /repo && cargo nextest run --workspace --no-fail-fast --profile default --test-threads 8 --offline "
-            "|| cargo test --workspace --no-fail-fast --offline")
+BASELINE = "cd /repo && cargo test --workspace --no-fail-fast --offline"
 NOTE = ("Trusted base: Coq 8.16.1 kernel (full .vo build; no axioms declared, Print Assumptions allow-list empty); my translator "
         "(gen/*.py + `mfi consts`, regenerated from /repo on every run); extraction via ExtrOcamlBasic only + driver.ml; the Rust "
         "correspondence harness (path-dependency on /repo, on-chain profile flags). The theorem is about the hand-written Gallina "
